@@ -169,6 +169,35 @@ pub fn judge_c04(bytes: &[u8]) -> Value {
     json!({"outcome": outcome, "ops": ops, "panics": panics})
 }
 
+/// like judge_c04, but payload iteration also runs on compressed payloads (sanitizer replays: the
+/// C decompressors are what valgrind / ASan are there for); output size is bounded by the budget
+pub fn judge_c04z(bytes: &[u8]) -> Value {
+    let mut v = judge_c04(bytes);
+    if let Ok(Ok(pkg)) = guard(|| Package::parse(&mut &bytes[..])) {
+        let r = guard(|| {
+            let mut n = 0usize;
+            if let Ok(it) = pkg.files() {
+                for f in it {
+                    n += 1;
+                    if f.is_err() || n > 10_000 {
+                        break;
+                    }
+                }
+            }
+            n
+        });
+        match r {
+            Ok(n) => v["compressed_files_iterated"] = json!(n),
+            Err(p) => {
+                if let Some(a) = v["panics"].as_array_mut() {
+                    a.push(json!({"op": "files(compressed)", "message": p.message, "file": p.file, "line": p.line, "frame": p.rpm_frame}));
+                }
+            }
+        }
+    }
+    v
+}
+
 // ---------------------------------------------------------------------------------------------
 // parent side: workload families
 
@@ -181,6 +210,8 @@ struct Gen<'a> {
     rep: &'a Report,
     bins: Vec<(&'static str, std::path::PathBuf)>,
     thorough: bool,
+    /// a thinned sample of everything generated, replayed under the sanitizers in the thorough tier
+    replay_sample: Vec<Vec<u8>>,
 }
 
 impl Gen<'_> {
@@ -189,6 +220,9 @@ impl Gen<'_> {
         self.labels.push((id, family.to_string()));
         self.pending_bytes += bytes.len() + 64;
         self.total += 1;
+        if self.thorough && self.total % 997 == 0 && self.replay_sample.len() < 6000 && bytes.len() < 20_000 {
+            self.replay_sample.push(bytes.clone());
+        }
         self.cases.push(Case { id, budget: default_budget(bytes.len()), bytes });
         if self.pending_bytes > (768 << 20) || self.cases.len() >= 400_000 {
             self.flush();
@@ -571,7 +605,7 @@ fn run(ctx: &Ctx, rep: &Report) {
     if bins.len() < 2 {
         rep.inconclusive("verifdbg worker binary not available");
     }
-    let mut g = Gen { cases: Vec::new(), labels: Vec::new(), pending_bytes: 0, total: 0, ctx, rep, bins, thorough };
+    let mut g = Gen { cases: Vec::new(), labels: Vec::new(), pending_bytes: 0, total: 0, ctx, rep, bins, thorough, replay_sample: Vec::new() };
     family_boundaries(&mut g, thorough);
     family_cpio(&mut g, &mut rng, ctx.tier.pick(3000, 60_000));
     family_garbage(&mut g, &mut rng, ctx.tier.pick(2000, 50_000));
@@ -580,6 +614,169 @@ fn run(ctx: &Ctx, rep: &Report) {
     family_mutations(&mut g, &targets, thorough, &mut rng);
     g.flush();
     rep.count("inputs_generated", g.total);
+    if thorough {
+        let sample = std::mem::take(&mut g.replay_sample);
+        sanitizer_replays(ctx, rep, sample, &mut rng);
+    }
+}
+
+/// hostile compressed payloads around a valid file list
+fn compressed_corpus(rng: &mut Rng, per_compressor: usize) -> Vec<Vec<u8>> {
+    let files = vec![HFile::new("/etc/", "a.conf", 0o100644, b"hello hello hello hello"), HFile::new("/usr/bin/", "tool", 0o100755, &vec![b'x'; 3000])];
+    let archive = [
+        mcpio::enc_newc(b"./etc/a.conf", 0o100644, 1, b"hello hello hello hello"),
+        mcpio::enc_newc(b"./usr/bin/tool", 0o100755, 2, &vec![b'x'; 3000]),
+        mcpio::enc_trailer(),
+    ]
+    .concat();
+    let mut out = Vec::new();
+    for comp in ["gzip", "zstd", "xz", "bzip2"] {
+        let payload = mcpio::compress(comp, &archive);
+        out.push(package_with_files("z", &files, &payload, Some(comp), false));
+        for k in 0..per_compressor {
+            let mut p = payload.clone();
+            match k % 4 {
+                0 => {
+                    let i = rng.usize(p.len());
+                    p[i] ^= 1 << rng.below(8);
+                }
+                1 => {
+                    let cut = rng.usize(p.len());
+                    p.truncate(cut);
+                }
+                2 => {
+                    for _ in 0..1 + rng.usize(6) {
+                        let i = rng.usize(p.len());
+                        p[i] = rng.next() as u8;
+                    }
+                }
+                _ => {
+                    let i = rng.usize(p.len());
+                    let n = 1 + rng.usize(16);
+                    let extra = rng.bytes(n);
+                    p.splice(i..i, extra);
+                }
+            }
+            out.push(package_with_files("z", &files, &p, Some(comp), false));
+        }
+    }
+    out
+}
+
+fn tool_ok(cmd: &str, args: &[&str]) -> bool {
+    std::process::Command::new(cmd).args(args).stdout(std::process::Stdio::null()).stderr(std::process::Stdio::null()).status().map(|s| s.success()).unwrap_or(false)
+}
+
+/// Replays of a corpus sample under valgrind memcheck, AddressSanitizer and Miri. A report of any of
+/// them is a violation (memory error reached from untrusted bytes); a tool that is not available or
+/// does not build is recorded in the evidence and does not count either way.
+fn sanitizer_replays(ctx: &Ctx, rep: &Report, sample: Vec<Vec<u8>>, rng: &mut Rng) {
+    let manifest = std::env::var("VERIF_MANIFEST").unwrap_or_else(|_| ctx.verif_dir.join("harness/Cargo.toml").display().to_string());
+    let target_base = std::env::var("CARGO_TARGET_DIR").unwrap_or_else(|_| ctx.verif_dir.join("target").display().to_string());
+    let release_bin = worker_binaries().into_iter().next().map(|b| b.1);
+    let compressed = compressed_corpus(rng, 250);
+    rep.count("sanitizer.sample_uncompressed_inputs", sample.len() as u64);
+    rep.count("sanitizer.compressed_payload_inputs", compressed.len() as u64);
+    let mk_cases = |v: &[Vec<u8>]| -> Vec<Case> { v.iter().enumerate().map(|(i, b)| Case { id: i as u64, budget: default_budget(b.len()).max(64 << 20), bytes: b.clone() }).collect() };
+    let judge_outcomes = |tool: &str, marker: &[&str], cases: &[Case], outs: Vec<(u64, Outcome)>| {
+        let mut done = 0u64;
+        for (id, out) in outs {
+            rep.eval(1);
+            let bytes = &cases[id as usize].bytes;
+            match out {
+                Outcome::Done { value, .. } => {
+                    done += 1;
+                    for p in value["panics"].as_array().cloned().unwrap_or_default() {
+                        rep.violation(format!("panic:{}", crate::util::par::site_of(p["file"].as_str().unwrap_or(""), p["frame"].as_str().unwrap_or(""), p["message"].as_str().unwrap_or(""))), format!("[{tool} replay] {} panics: {}", p["op"], p["message"]), json!({"family": format!("{tool}-replay"), "input_hex": hex::encode(bytes)}), bytes.len() as u64);
+                    }
+                }
+                Outcome::Crash { status, stderr_tail } => {
+                    if marker.iter().any(|m| stderr_tail.contains(m)) {
+                        rep.violation(format!("{tool}:report"), format!("{tool} reports a memory error on a {}-byte input: {stderr_tail}", bytes.len()), json!({"family": format!("{tool}-replay"), "input_hex": hex::encode(bytes)}), bytes.len() as u64);
+                    } else {
+                        rep.note(format!("{tool} replay: worker died without a {tool} report ({status}): {stderr_tail}"));
+                    }
+                }
+                Outcome::Alloc { .. } => rep.count(&format!("sanitizer.{tool}.alloc_budget_trips(known findings / decompression output)"), 1),
+                Outcome::Timeout { .. } => rep.count(&format!("sanitizer.{tool}.timeouts(not judged)"), 1),
+                Outcome::Panic { message, .. } => rep.note(format!("{tool} replay: judge panicked: {message}")),
+            }
+        }
+        rep.count(&format!("sanitizer.{tool}.inputs_completed"), done);
+    };
+
+    // ---- valgrind memcheck on the release binary (sees inside the C decompressors)
+    if let (true, Some(bin)) = (tool_ok("valgrind", &["--version"]), release_bin.clone()) {
+        let logdir = ctx.work_dir("valgrind");
+        let mut inputs: Vec<Vec<u8>> = compressed.clone();
+        inputs.extend(sample.iter().take(1500).cloned());
+        let cases = mk_cases(&inputs);
+        let l = Launcher {
+            program: "valgrind".into(),
+            pre_args: vec!["--quiet".into(), "--error-exitcode=99".into(), "--errors-for-leak-kinds=none".into(), format!("--log-file={}/vg.%p.log", logdir.display()), bin.display().to_string()],
+            env: vec![],
+        };
+        let outs = run_cases_with(&l, "c04z", &[], &cases, ctx.threads, Duration::from_secs(300));
+        judge_outcomes("valgrind", &["Invalid read", "Invalid write", "uninitialised", "Invalid free"], &cases, outs);
+        // memcheck keeps going after an error: reports are in the log files
+        let mut reports = 0u64;
+        if let Ok(rd) = std::fs::read_dir(&logdir) {
+            for e in rd.flatten() {
+                let t = std::fs::read_to_string(e.path()).unwrap_or_default();
+                if t.contains("Invalid read") || t.contains("Invalid write") || t.contains("uninitialised value") || t.contains("Invalid free") || t.contains("Mismatched free") {
+                    reports += 1;
+                    let first: String = t.lines().filter(|l| l.contains("==")).take(14).collect::<Vec<_>>().join(" | ");
+                    rep.violation("valgrind:report", format!("valgrind memcheck reports a memory error during the replay: {first}"), json!({"family": "valgrind-replay", "log": first}), 1);
+                }
+            }
+        }
+        rep.count("sanitizer.valgrind.reports", reports);
+        let _ = std::fs::remove_dir_all(&logdir);
+    } else {
+        rep.note("valgrind not available: memcheck replay skipped");
+    }
+
+    // ---- AddressSanitizer build of the harness (nightly)
+    let asan_target = format!("{target_base}/asan");
+    let built = std::process::Command::new("cargo")
+        .args(["+nightly", "build", "--offline", "--quiet", "--release", "--target", "x86_64-unknown-linux-gnu", "--manifest-path", &manifest])
+        .env("RUSTFLAGS", "-Zsanitizer=address -Cforce-frame-pointers=yes")
+        .env("CARGO_TARGET_DIR", &asan_target)
+        .env("CARGO_NET_OFFLINE", "true")
+        .stdout(std::process::Stdio::null())
+        .stderr(std::process::Stdio::null())
+        .status()
+        .map(|s| s.success())
+        .unwrap_or(false);
+    let asan_bin = std::path::PathBuf::from(format!("{asan_target}/x86_64-unknown-linux-gnu/release/rpmverif"));
+    if built && asan_bin.exists() {
+        let mut inputs: Vec<Vec<u8>> = compressed.clone();
+        inputs.extend(sample.iter().cloned());
+        let cases = mk_cases(&inputs);
+        let l = Launcher { program: asan_bin, pre_args: vec![], env: vec![("ASAN_OPTIONS".into(), "halt_on_error=1:abort_on_error=1:detect_leaks=1:allocator_may_return_null=1".into())] };
+        let outs = run_cases_with(&l, "c04z", &[], &cases, ctx.threads, Duration::from_secs(120));
+        judge_outcomes("asan", &["AddressSanitizer", "LeakSanitizer"], &cases, outs);
+    } else {
+        rep.note("AddressSanitizer build of the harness failed or nightly is missing: ASan replay skipped");
+    }
+
+    // ---- Miri (no FFI: uncompressed inputs only, a few hundred)
+    if tool_ok("cargo", &["+nightly", "miri", "--version"]) {
+        let miri_target = format!("{target_base}/miri");
+        let inputs: Vec<Vec<u8>> = sample.iter().filter(|b| b.len() < 4096).take(480).cloned().collect();
+        let cases = mk_cases(&inputs);
+        let l = Launcher {
+            program: "cargo".into(),
+            pre_args: vec!["+nightly".into(), "miri".into(), "run".into(), "--offline".into(), "--quiet".into(), "--manifest-path".into(), manifest.clone(), "--".into()],
+            env: vec![("MIRIFLAGS".into(), "-Zmiri-disable-isolation".into()), ("CARGO_TARGET_DIR".into(), miri_target), ("CARGO_NET_OFFLINE".into(), "true".into())],
+        };
+        // build once before the parallel runs
+        let _ = std::process::Command::new("cargo").args(["+nightly", "miri", "run", "--offline", "--quiet", "--manifest-path", &manifest, "--", "selftest"]).envs(l.env.iter().map(|(k, v)| (k.as_str(), v.as_str()))).stdout(std::process::Stdio::null()).stderr(std::process::Stdio::null()).status();
+        let outs = run_cases_with(&l, "c04", &[], &cases, ctx.threads, Duration::from_secs(600));
+        judge_outcomes("miri", &["Undefined Behavior", "error: unsupported operation"], &cases, outs);
+    } else {
+        rep.note("Miri not available: UB-interpreter replay skipped");
+    }
 }
 
 fn process_batch(g: &mut Gen<'_>) {
